@@ -1,0 +1,138 @@
+//go:build verif
+
+// Contracts for the verif framework (/verif). Comment-only: this file
+// declares nothing and is compiled only with -tags=verif.
+
+package lockedfile
+
+// Ghost state (see /verif/specs/fs.spec): fdMode[f] is the flock state of the open
+// file description behind the *os.File f (0 unlocked, 1 shared, 2 exclusive),
+// fdClosed[f], fdPath[f]; fsBytes/fsSize are the byte-level file contents.
+
+//@ property C06: openFile, closeFile, OpenFile, Open, Create, Edit, (*File).Close, lockedfile/internal/filelock/lock, lockedfile/internal/filelock/unlock, lockedfile/internal/filelock/Lock, lockedfile/internal/filelock/RLock, lockedfile/internal/filelock/Unlock, lockedfile/internal/filelock/(lockType).String
+//@ property C07: openFile, closeFile, OpenFile, Edit, (*File).Close, Transform, Transform$1, Read, Write
+
+// lock mode demanded by the open flags: write access means exclusive
+//@ pure func wantMode(flag int) int = (flag & 3 == 1 || flag & 3 == 2) ? 2 : 1
+// no descriptor that existed before the call changed its lock state or was closed
+//@ pure func othersKept(m0 smt:(Array Int Int), m1 smt:(Array Int Int), c0 smt:(Array Int Bool), c1 smt:(Array Int Bool), bound int) bool = forall g int {m1[g]} {c1[g]} :: g <= bound ==> m1[g] == m0[g] && c1[g] == c0[g]
+
+//@ func openFile
+//@   names (f, err)
+//@   ensures forall p int {fsSize[p]} {fsBytes[p]} :: p != sid(name) ==> fsSize[p] == old(fsSize)[p] && fsBytes[p] == old(fsBytes)[p]
+//@   modifies fsExists, fsData, fsSize, fsBytes, fdPath, fdMode, fdClosed, failBudget
+//@   at call os.OpenFile#1: requires flag & 512 == 0
+//@   at call (*os.File).Truncate#1: requires fdMode[f] != 0 && !fdClosed[f]
+//@   at call (*os.File).Close#1: requires fdMode[f] == 0
+//@   ensures err != nil ==> f == nil
+//@   ensures err == nil ==> f != nil && fresh(f) && !fdClosed[f] && fdPath[f] == sid(name) && fdMode[f] == wantMode(flag)
+//@   ensures forall g int {fdMode[g]} {fdClosed[g]} :: !fresh(g) ==> fdMode[g] == old(fdMode)[g] && fdClosed[g] == old(fdClosed)[g]
+//@   ensures flag & 512 == 0 ==> fsBytes == old(fsBytes) && failBudget == old(failBudget)
+//@   ensures flag & 512 == 0 && old(fsExists)[name] ==> fsSize[name] == old(fsSize)[name]
+
+//@ func closeFile
+//@   modifies fdMode, fdClosed
+//@   at call (*os.File).Close#1: requires fdMode[f] == 0 || err != nil
+//@   ensures fdClosed[f] && fdMode[f] == 0
+//@   ensures forall g int {fdMode[g]} {fdClosed[g]} :: g != f ==> fdMode[g] == old(fdMode)[g] && fdClosed[g] == old(fdClosed)[g]
+
+//@ func OpenFile
+//@   names (f, err)
+//@   ensures forall p int {fsSize[p]} {fsBytes[p]} :: p != sid(name) ==> fsSize[p] == old(fsSize)[p] && fsBytes[p] == old(fsBytes)[p]
+//@   modifies fsExists, fsData, fsSize, fsBytes, fdPath, fdMode, fdClosed, failBudget, F_S_lockedfile_File_*
+//@   ensures err != nil ==> f == nil
+//@   ensures err == nil ==> f != nil && fresh(f) && !f.closed && f.osFile.File != nil && fresh(f.osFile.File) && !fdClosed[f.osFile.File] && fdPath[f.osFile.File] == sid(name) && fdMode[f.osFile.File] == wantMode(flag)
+//@   ensures forall g int {fdMode[g]} {fdClosed[g]} :: !fresh(g) ==> fdMode[g] == old(fdMode)[g] && fdClosed[g] == old(fdClosed)[g]
+//@   ensures flag & 512 == 0 ==> fsBytes == old(fsBytes) && failBudget == old(failBudget)
+//@   ensures flag & 512 == 0 && old(fsExists)[name] ==> fsSize[name] == old(fsSize)[name]
+
+//@ func Open
+//@   names (f, err)
+//@   ensures old(fsExists)[name] ==> fsSize[name] == old(fsSize)[name]
+//@   modifies fsExists, fsData, fsSize, fsBytes, fdPath, fdMode, fdClosed, failBudget, F_S_lockedfile_File_*
+//@   ensures err == nil ==> f != nil && fresh(f) && !f.closed && fresh(f.osFile.File) && !fdClosed[f.osFile.File] && fdPath[f.osFile.File] == sid(name) && fdMode[f.osFile.File] == 1
+//@   ensures forall g int {fdMode[g]} {fdClosed[g]} :: !fresh(g) ==> fdMode[g] == old(fdMode)[g] && fdClosed[g] == old(fdClosed)[g]
+//@   ensures fsBytes == old(fsBytes) && failBudget == old(failBudget)
+
+//@ func Create
+//@   names (f, err)
+//@   modifies fsExists, fsData, fsSize, fsBytes, fdPath, fdMode, fdClosed, failBudget, F_S_lockedfile_File_*
+//@   ensures err == nil ==> f != nil && fresh(f) && !f.closed && fresh(f.osFile.File) && !fdClosed[f.osFile.File] && fdPath[f.osFile.File] == sid(name) && fdMode[f.osFile.File] == 2
+//@   ensures forall g int {fdMode[g]} {fdClosed[g]} :: !fresh(g) ==> fdMode[g] == old(fdMode)[g] && fdClosed[g] == old(fdClosed)[g]
+
+//@ func Edit
+//@   names (f, err)
+//@   ensures forall p int {fsSize[p]} {fsBytes[p]} :: p != sid(name) ==> fsSize[p] == old(fsSize)[p] && fsBytes[p] == old(fsBytes)[p]
+//@   modifies fsExists, fsData, fsSize, fsBytes, fdPath, fdMode, fdClosed, failBudget, F_S_lockedfile_File_*
+//@   ensures err != nil ==> f == nil
+//@   ensures err == nil ==> f != nil && fresh(f) && !f.closed && f.osFile.File != nil && fresh(f.osFile.File) && !fdClosed[f.osFile.File] && fdPath[f.osFile.File] == sid(name) && fdMode[f.osFile.File] == 2
+//@   ensures forall g int {fdMode[g]} {fdClosed[g]} :: !fresh(g) ==> fdMode[g] == old(fdMode)[g] && fdClosed[g] == old(fdClosed)[g]
+//@   ensures fsBytes == old(fsBytes) && failBudget == old(failBudget)
+//@   ensures old(fsExists)[name] ==> fsSize[name] == old(fsSize)[name]
+
+// Close: the first call unlocks (before closing) and closes; later calls touch nothing.
+//@ func (*File).Close
+//@   requires f != nil
+//@   modifies fdMode, fdClosed, F_S_lockedfile_File_closed
+//@   ensures old(f.closed) ==> result != nil && fdMode == old(fdMode) && fdClosed == old(fdClosed)
+//@   ensures !old(f.closed) ==> f.closed && fdClosed[f.osFile.File] && fdMode[f.osFile.File] == 0
+//@   ensures forall g int {fdMode[g]} {fdClosed[g]} :: g != f.osFile.File ==> fdMode[g] == old(fdMode)[g] && fdClosed[g] == old(fdClosed)[g]
+
+// ---- C07: contents change atomically ----
+//
+// the file (bytes, size) holds exactly the bytes of d
+//@ pure func fileIs(b arr, n int, d []byte) bool = n == len(d) && forall q int {b[q]} :: 0 <= q && q < n ==> b[q] == at(d, lo(d) + q)
+// two files have the same contents
+//@ pure func fileEq(b1 arr, n1 int, b2 arr, n2 int) bool = n1 == n2 && forall q int {b1[q]} :: 0 <= q && q < n1 ==> b1[q] == b2[q]
+
+// io.ReadAll on a *File reads the whole current contents of the locked file.
+//@ extern io.ReadAll(r) (data, err)
+//@   modifies new bytes
+//@   ensures err == nil ==> (data == nil || fresh(data)) && fileIs(fsBytes[fdPath[cast(unbox(r), File).osFile.File]], fsSize[fdPath[cast(unbox(r), File).osFile.File]], data)
+
+// The rollback closure of Transform: if a step failed, write the old contents back.
+// (By then the single permitted failure has happened, so its own steps succeed.)
+//@ func Transform$1
+//@   requires f != nil && f.osFile.File != nil && fdMode[f.osFile.File] == 2 && !fdClosed[f.osFile.File]
+//@   requires err != nil ==> failBudget == 0
+//@   modifies fsBytes, fsSize, failBudget
+//@   at call (*os.File).WriteAt#0: requires fdMode[f] == 2 && !fdClosed[f]
+//@   at call (*os.File).Truncate#0: requires fdMode[f] == 2 && !fdClosed[f]
+//@   ensures old(err) != nil ==> fileIs(fsBytes[fdPath[f.osFile.File]], fsSize[fdPath[f.osFile.File]], old)
+//@   ensures old(err) == nil ==> fsBytes == old(fsBytes) && fsSize == old(fsSize)
+//@   ensures failBudget == old(failBudget)
+//@   ensures forall p int {fsBytes[p]} {fsSize[p]} :: p != fdPath[f.osFile.File] ==> fsBytes[p] == old(fsBytes)[p] && fsSize[p] == old(fsSize)[p]
+
+// Transform: for any single failing file operation (failBudget == 1) and any old/new
+// length relation, an error leaves the previous contents in place; success publishes
+// exactly what t returned. Every content access happens under the exclusive lock.
+//@ func Transform
+//@   requires failBudget == 1
+//@   callee t(b) (r, e): modifies new bytes; bind tOut = r
+//@   modifies fsExists, fsData, fsSize, fsBytes, fdPath, fdMode, fdClosed, failBudget, F_S_lockedfile_File_*
+//@   at call io.ReadAll#1: requires fdMode[f.osFile.File] == 2 && !fdClosed[f.osFile.File]
+//@   at call (*os.File).WriteAt#0: requires fdMode[f] == 2 && !fdClosed[f]
+//@   at call (*os.File).Truncate#0: requires fdMode[f] == 2 && !fdClosed[f]
+//@   ensures err != nil && old(fsExists)[name] ==> fileEq(fsBytes[name], fsSize[name], old(fsBytes)[name], old(fsSize)[name])
+//@   ensures err == nil ==> fileIs(fsBytes[name], fsSize[name], tOut)
+//@   ensures forall p int {fsBytes[p]} {fsSize[p]} :: p != sid(name) ==> fsBytes[p] == old(fsBytes)[p] && fsSize[p] == old(fsSize)[p]
+
+// Read: the contents are read under the shared lock, from a descriptor opened by this call.
+//@ func Read
+//@   names (data, err)
+//@   modifies fsExists, fsData, fsSize, fsBytes, fdPath, fdMode, fdClosed, failBudget, F_S_lockedfile_File_*
+//@   at call io.ReadAll#1: requires fdMode[f.osFile.File] == 1 && !fdClosed[f.osFile.File] && fdPath[f.osFile.File] == sid(name)
+//@   ensures fsBytes == old(fsBytes)
+//@   ensures err == nil && old(fsExists)[name] ==> fileIs(old(fsBytes)[name], old(fsSize)[name], data)
+
+// io.Copy into a *File: some bytes are written to the locked file (contents left abstract).
+//@ extern io.Copy(dst, src) (written, err)
+//@   modifies fsBytes, fsSize, failBudget, new bytes
+//@   ensures forall p int {fsBytes[p]} {fsSize[p]} :: p != fdPath[cast(unbox(dst), File).osFile.File] ==> fsBytes[p] == old(fsBytes)[p] && fsSize[p] == old(fsSize)[p]
+
+// Write: truncation and writing happen only under the exclusive lock (O_TRUNC is
+// stripped from the open and applied after the lock is held: see openFile).
+//@ func Write
+//@   modifies fsExists, fsData, fsSize, fsBytes, fdPath, fdMode, fdClosed, failBudget, F_S_lockedfile_File_*
+//@   at call io.Copy#1: requires fdMode[f.osFile.File] == 2 && !fdClosed[f.osFile.File] && fdPath[f.osFile.File] == sid(name)
+//@   ensures forall p int {fsBytes[p]} {fsSize[p]} :: p != sid(name) ==> fsBytes[p] == old(fsBytes)[p] && fsSize[p] == old(fsSize)[p]
